@@ -39,6 +39,10 @@ func init() {
 			delay := []int{0, 0, 1, 5, 20, 40, 60, 100}[r.Intn(8)]
 			res := r.Pick("ok", "ok", "err")
 			return c.Add(sexp.A("shape"), sexp.A(shape), sexp.N(delay), sexp.A(res))
+		case "cross":
+			// two runners: what one of them does to its own pending command (restore, completion, error) while the other sits in
+			// a built-in wait
+			return c.Add(sexp.A("cross"), sexp.A(r.Pick("restore", "restore", "complete", "fail", "new")), sexp.N([]int{30, 60, 120}[r.Intn(3)]))
 		case "abandon":
 			return c.Add(sexp.A("abandon"), sexp.A(r.Pick("noret", "err", "err", "chan", "raw")), sexp.A(r.Pick("ok", "err")), sexp.A(r.Pick("ok", "err")))
 		}
